@@ -8,6 +8,13 @@ it and restored afterwards; uuid.uuid4 and the subscription identity replaced by
 inputs).  After EVERY operation the returned value and the whole file-system state (kind, content,
 symlink target of the five locations and of the outside symlink targets) are compared with
 IV.ClientState.step (Drivers/C17.lean).
+A second stream ("entry points") runs in a child interpreter started with INSIGHTS_CONF_DIR pointing into the
+scratch tree (so the import-time default argument of generate_machine_id / machine_id_exists is the scratch
+path) and interleaves reads through EVERY read path (generate_machine_id(), client.get_machine_id(),
+InsightsClient.get_machine_id(), InsightsConnection.create_system(False), the legacy unregister, the inventory
+look-up) with regenerations / deletions through EVERY write path (generate_machine_id(new=True),
+create_system(new_machine_id=True), InsightsConnection.unregister(), client.handle_unregistration(),
+support.registration_check()); only the HTTP session is faked.
 Oracle (independent of the model, on the raw os-level observations): see `Oracle`.
 """
 import glob
@@ -16,10 +23,12 @@ import logging
 import os
 import re
 import shutil
+import subprocess
+import sys
 import tempfile
 import uuid
 
-from harness.common import VERIF, enc, run_driver
+from harness.common import VERIF, enc, dec, run_driver
 
 from insights.client import utilities, cert_auth
 from insights.client.constants import InsightsConstants as constants
@@ -27,6 +36,9 @@ from insights.client.constants import InsightsConstants as constants
 N_EXT = 4
 LOCS = ["id", "reg0", "unreg0", "reg1", "unreg1"]
 MARKER_OPS = ("reg", "unreg", "delreg", "delunreg")
+ID_OPS = ("read", "new", "fetch")
+EP_READERS = ["default", "clientfn", "clientobj", "create", "legacyunreg"]
+EP_REGENS = ["default", "create"]
 CANON_RE = re.compile(r"^[0-9a-f]{8}-[0-9a-f]{4}-4[0-9a-f]{3}-[89ab][0-9a-f]{3}-[0-9a-f]{12}$")
 TIME_RE = re.compile(r"^\d{4}-\d\d-\d\dT\d\d:\d\d:\d\d(\.\d+)?$")
 FINDING = "absent-config-dir"
@@ -155,20 +167,28 @@ class Patched(object):
         self.fresh = self.fresh[1:] + [uuid.UUID(int=(self.fresh[-1].int + 1) % (1 << 128), version=4)]
         return u
 
+    def fresh_root(self, scratch, n):
+        root = os.path.join(scratch, "h%s" % n)
+        os.mkdir(root)
+        return root
+
     def point(self, sb):
         constants.machine_id_file = sb.path["id"]
         constants.registered_files = [sb.path["reg0"], sb.path["reg1"]]
         constants.unregistered_files = [sb.path["unreg0"], sb.path["unreg1"]]
 
+    def set_inputs(self, rhsm, fresh):
+        self.fresh = [uuid.UUID(fresh)]
+        FakeCert.current = rhsm
+        # RHSM modules "not installed" and "no certificate" both mean: no subscription identity
+        cert_auth.RHSM_CONFIG = None if (rhsm is None and fresh[0] in "01234567") else object()
+
     def run_op(self, sb, op):
         kind = op[0]
         try:
             if kind in ("read", "new"):
-                self.fresh = [uuid.UUID(op[2])]
-                FakeCert.current = op[1]
-                # RHSM modules "not installed" and "no certificate" both mean: no subscription identity
-                cert_auth.RHSM_CONFIG = None if (op[1] is None and op[2][0] in "01234567") else object()
-                r = utilities.generate_machine_id(new=(kind == "new"), destination_file=constants.machine_id_file)
+                self.set_inputs(op[2], op[3])
+                r = self.identifier(kind == "new", op[1])
                 return "id:" + enc(r if isinstance(r, str) else repr(r))
             if kind == "reg":
                 utilities.write_registered_file()
@@ -182,7 +202,7 @@ class Patched(object):
             elif kind == "delunreg":
                 utilities.delete_unregistered_file()
             else:
-                raise AssertionError(kind)
+                return self.entry_point(op)
             return "ok"
         except SystemExit:
             return "invalid"
@@ -190,6 +210,209 @@ class Patched(object):
             return "oserror"
         except Exception as e:  # anything else is not in the model: shows up as a correspondence break
             return "exc:" + type(e).__name__
+
+    def identifier(self, new, path):
+        if path != "explicit":
+            raise AssertionError("entry point %r needs the child interpreter" % path)
+        return utilities.generate_machine_id(new=new, destination_file=constants.machine_id_file)
+
+    def entry_point(self, op):
+        raise AssertionError(op[0])
+
+
+# --------------------------------------------------------------------------- every entry point (child interpreter)
+
+class FakeResponse(object):
+    def __init__(self, code, body):
+        self.status_code, self.reason, self.text, self.content = code, "faked", body, body.encode("utf-8")
+
+
+class FakeSession(object):
+    """the network: every request is answered locally; `mode` = what the inventory says about this host"""
+
+    def __init__(self):
+        self.calls = []
+        self.mode = True
+        self.headers = {}
+
+    def request(self, url=None, method=None, **kw):
+        self.calls.append((method, url, kw.get("data")))
+        if method == "GET" and "host_exists" in url:
+            if self.mode is None:
+                import requests
+                raise requests.ConnectionError("unreachable (faked)")
+            if self.mode is False:
+                return FakeResponse(404, '{"detail": "not found"}')
+            return FakeResponse(200, '{"id": "inventory-id"}')
+        return FakeResponse(200, "{}")
+
+
+class PatchedEP(Patched):
+    """
+    Child interpreter started with INSIGHTS_CONF_DIR=<root>/d0: the real entry points run against the scratch tree
+    with their import-time default paths.  Patched besides uuid4 / subscription identity: the legacy directory's
+    marker paths, pid/lib paths (into <root>-aux), determine_hostname (DNS) and the HTTP session.
+    """
+
+    def __init__(self, root):
+        Patched.__init__(self)
+        self.root = root
+        self.aux = root + "-aux"
+
+    def __enter__(self):
+        Patched.__enter__(self)
+        from insights.client import InsightsClient, client, connection, support
+        from insights.client.config import InsightsConfig
+        self.client, self.connection, self.support = client, connection, support
+        os.makedirs(os.path.join(self.aux, "lib"), exist_ok=True)
+        constants.pidfile = os.path.join(self.aux, "pid")
+        constants.ppidfile = os.path.join(self.aux, "ppid")
+        constants.insights_core_lib_dir = os.path.join(self.aux, "lib")
+        self.sess = FakeSession()
+        sess = self.sess
+        connection.InsightsConnection._init_session = lambda conn: sess
+        connection.determine_hostname = lambda *a, **k: "host.example.test"
+        self.cfg = InsightsConfig(legacy_upload=False)
+        self.cfg.branch_info = {"remote_branch": -1, "remote_leaf": -1}
+        self.ic = InsightsClient(self.cfg, from_phase=False)
+        self.conn = connection.InsightsConnection(self.cfg)
+        return self
+
+    def fresh_root(self, scratch, n):
+        shutil.rmtree(self.root, ignore_errors=True)
+        os.mkdir(self.root)
+        return self.root
+
+    def point(self, sb):
+        want = (sb.path["id"], sb.path["reg0"], sb.path["unreg0"])
+        have = (constants.machine_id_file, constants.registered_files[0], constants.unregistered_files[0])
+        dflt = (utilities.generate_machine_id.__defaults__[-1], utilities.machine_id_exists.__defaults__[-1])
+        if want != have or dflt != (sb.path["id"], sb.path["id"]):
+            raise AssertionError("INSIGHTS_CONF_DIR did not take effect: %r %r %r" % (want, have, dflt))
+        constants.registered_files = [sb.path["reg0"], sb.path["reg1"]]
+        constants.unregistered_files = [sb.path["unreg0"], sb.path["unreg1"]]
+
+    def identifier(self, new, path):
+        if path == "explicit":
+            return utilities.generate_machine_id(new=new, destination_file=constants.machine_id_file)
+        if path == "default":
+            return utilities.generate_machine_id(new=True) if new else utilities.generate_machine_id()
+        if path == "clientfn":
+            return self.client.get_machine_id()
+        if path == "clientobj":
+            return self.ic.get_machine_id()
+        self.sess.calls = []
+        if path == "create":
+            self.conn.create_system(new_machine_id=new)
+            method, url, data = self.sess.calls[-1]
+            return json.loads(data)["machine_id"]
+        if path == "legacyunreg":
+            self.cfg.legacy_upload = True
+            try:
+                self.conn.unregister()
+            finally:
+                self.cfg.legacy_upload = False
+            method, url, data = self.sess.calls[-1]
+            return url.rsplit("/", 1)[1]
+        raise AssertionError(path)
+
+    def entry_point(self, op):
+        kind = op[0]
+        self.sess.calls = []
+        self.sess.mode = True
+        if kind == "fetch":
+            self.set_inputs(op[1], op[2])
+            self.conn.api_registration_check()
+            if self.sess.calls:
+                return "id:" + enc(self.sess.calls[-1][1].rsplit("insights_id=", 1)[1])
+        elif kind == "connunreg":
+            self.conn.unregister()
+        elif kind == "handleunreg":
+            self.cfg.force = bool(op[1])
+            self.client.handle_unregistration(self.cfg, self.conn)
+        elif kind == "regcheck":
+            self.set_inputs(op[2], op[3])
+            self.sess.mode = op[1]
+            self.support.registration_check(self.conn)
+        else:
+            raise AssertionError(kind)
+        return "ok"
+
+
+def needs_child(case):
+    return any(op[0] in ("fetch", "connunreg", "handleunreg", "regcheck") or
+               (op[0] in ("read", "new") and op[1] != "explicit") for op in case["ops"])
+
+
+def run_child(cases, do_shrink=False):
+    """run histories in a fresh interpreter whose INSIGHTS_CONF_DIR is the scratch tree; returns [{out, fails, small}]"""
+    from harness.common import REPO
+    top = tempfile.mkdtemp(prefix="c17ep-")
+    try:
+        root = os.path.join(top, "conf")
+        env = dict(os.environ)
+        env.update({"INSIGHTS_CONF_DIR": os.path.join(root, "d0"), "C17_ROOT": root,
+                    "PYTHONPATH": REPO + os.pathsep + VERIF, "PYTHONDONTWRITEBYTECODE": "1"})
+        p = subprocess.run([sys.executable, "-B", "-m", "harness.c17"], cwd=VERIF, env=env,
+                           input=json.dumps({"cases": cases, "shrink": do_shrink}).encode("utf-8"),
+                           stdout=subprocess.PIPE, stderr=subprocess.PIPE, timeout=3000)
+        for line in p.stdout.decode("utf-8", "replace").split("\n"):
+            if line.startswith("C17-CHILD-RESULT "):
+                return json.loads(line[len("C17-CHILD-RESULT "):])
+        raise RuntimeError("entry-point child failed (rc=%s): %s" % (p.returncode, p.stderr.decode("utf-8", "replace")[-3000:]))
+    finally:
+        shutil.rmtree(top, ignore_errors=True)
+
+
+def forked(fn):
+    """run fn() in a fork of this (already imported, already patched) interpreter and return its JSON-able result:
+    every history starts from the module state a fresh process has, so every reported failure replays on its own"""
+    r, w = os.pipe()
+    pid = os.fork()
+    if pid == 0:
+        code = 0
+        try:
+            os.close(r)
+            with os.fdopen(w, "w") as f:
+                json.dump(fn(), f)
+        except BaseException:
+            import traceback
+            traceback.print_exc()
+            code = 3
+        os._exit(code)
+    os.close(w)
+    with os.fdopen(r) as f:
+        data = f.read()
+    _, status = os.waitpid(pid, 0)
+    if status != 0 or not data:
+        raise RuntimeError("forked history failed (status %s)" % status)
+    return json.loads(data)
+
+
+def child_main():
+    data = json.load(sys.stdin)
+    res = []
+    budget = [5 if data.get("shrink") else 0]        # histories worth shrinking: only the first few get a replay file
+    with PatchedEP(os.environ["C17_ROOT"]) as pt:
+        def one(case):
+            def go():
+                out, orc = run_history(pt, None, 0, case)
+                return {"out": out, "fails": orc.fails, "known": [orc.is_known(c) for c, _, _ in orc.fails]}
+            return forked(go)
+        for case in data["cases"]:
+            r = one(case)
+            small = {}
+            unlisted = [(c, i) for (c, _, i), k in zip(r["fails"], r["known"]) if not k]
+            if unlisted and budget[0] > 0:
+                budget[0] -= 1
+                for clause, i in unlisted:
+                    if clause not in small:
+                        small[clause] = shrink_with(lambda c, cl=clause: any(f[0] == cl for f in one(c)["fails"]), case, i)
+            res.append({"out": r["out"], "fails": r["fails"], "small": small})
+        shutil.rmtree(pt.root, ignore_errors=True)
+        shutil.rmtree(pt.aux, ignore_errors=True)
+    sys.stdout.write("C17-CHILD-RESULT " + json.dumps(res) + "\n")
+    sys.stdout.flush()
 
 
 # --------------------------------------------------------------------------- oracle
@@ -217,27 +440,42 @@ class Oracle(object):
         kind = op[0]
         rid = None
         if res.startswith("id:"):
-            from harness.common import dec
             rid = dec(res[3:])
             if not CANON_RE.match(rid):
                 self.fails.append(("O1", "returned identifier %r is not canonical" % rid, i))
+            # O6: whoever hands out an identifier hands out the one the file holds
+            if self.init["has"][0]:
+                try:
+                    want = str(uuid.UUID((idb_post or b"").decode("utf-8").strip(), version=4))
+                except ValueError:
+                    want = None
+                if want != rid:
+                    self.fails.append(("O6", "%s returned %s but the identifier file holds %r" % (describe(op), rid, idb_post), i))
+        # explicit requests for a new identifier: forced regeneration, or an unregistration that deletes the file
         if kind == "new":
             self.established = rid
-        elif kind == "read":
+        elif kind in ("connunreg", "handleunreg") or (kind == "regcheck" and op[1] is False):
+            self.established = None
+        elif kind in ("read", "fetch"):
             if rid is not None:
                 if self.established is not None and rid != self.established:
-                    self.fails.append(("O2", "identifier changed from %s to %s without a regeneration" % (self.established, rid), i))
+                    self.fails.append(("O2", "%s returned %s, the previous identifier operation returned %s and no regeneration was "
+                                       "requested in between" % (describe(op), rid, self.established), i))
                 self.established = rid
             if idb_pre and idb_post != idb_pre:
                 self.fails.append(("O3", "a read changed the identifier file from %r to %r" % (idb_pre, idb_post), i))
             if idb_pre and pre["id"] != post["id"] and pre["id"][0] == "L":
                 self.fails.append(("O3", "a read replaced the identifier symlink", i))
+        elif kind == "regcheck" and idb_pre and idb_post != idb_pre:
+            self.fails.append(("O3", "a registration check that was not told 'unregistered' changed the identifier file from %r to %r"
+                               % (idb_pre, idb_post), i))
         if kind in ("reg", "unreg") and res == "ok":
             self.armed = True
         if self.armed:
             for d in ("0", "1"):
                 if post["reg" + d][0] != "A" and post["unreg" + d][0] != "A":
                     self.fails.append(("O4", "both markers present in directory d%s after %s" % (d, kind), i))
+        own = pre["id"][1] if pre["id"][0] == "L" else None
         if kind in MARKER_OPS:
             for name in ["id"] + ["ext%d" % k for k in range(N_EXT)]:
                 if pre[name] != post[name]:
@@ -249,8 +487,7 @@ class Oracle(object):
                         self.fails.append(("O5", "%s left a symlink at %s" % (kind, m), i))
                     elif pre[m][0] == "L" and post[m][0] != "F":
                         self.fails.append(("O5", "%s did not replace the symlink at %s by a regular file" % (kind, m), i))
-        else:
-            own = pre["id"][1] if pre["id"][0] == "L" else None
+        elif kind in ID_OPS:
             for name in LOCS[1:]:
                 if pre[name] != post[name]:
                     self.fails.append(("O5", "%s touched marker %s" % (kind, name), i))
@@ -258,10 +495,21 @@ class Oracle(object):
                 name = "ext%d" % k
                 if pre[name] != post[name] and not (own is not None and own.endswith("/t%d" % k)):
                     self.fails.append(("O5", "%s touched outside target %s" % (kind, name), i))
+        else:
+            # unregistration / registration-check paths: unlink, never follow (the inner read of a registration check
+            # may fill an empty identifier file through the identifier's own symlink)
+            for k in range(N_EXT):
+                name = "ext%d" % k
+                if pre[name] != post[name] and not (kind == "regcheck" and own is not None and own.endswith("/t%d" % k)):
+                    self.fails.append(("O5", "%s touched outside target %s" % (kind, name), i))
 
     def is_known(self, clause):
         """input predicate of the listed finding: the default configuration directory does not exist"""
         return clause == "O2" and not self.init["has"][0]
+
+
+def describe(op):
+    return "%s(%s)" % (op[0], op[1]) if op[0] in ("read", "new") else op[0]
 
 
 # --------------------------------------------------------------------------- running one history
@@ -276,19 +524,28 @@ def init_line(init):
                                      "\t".join(node(n) for n in init["ext"]))
 
 
+def opt(x):
+    return "~" if x is None else enc(x)
+
+
 def op_line(op):
     k = op[0]
     if k in ("read", "new"):
-        return "%s\t%s\t%s" % (k, "~" if op[1] is None else enc(op[1]), enc(op[2]))
+        return "%s\t%s\t%s\t%s" % (k, op[1], opt(op[2]), enc(op[3]))
+    if k == "fetch":
+        return "fetch\t%s\t%s" % (opt(op[1]), enc(op[2]))
     if k == "unreg":
-        return "unreg\t%s" % ("~" if op[1] is None else enc(op[1]))
+        return "unreg\t%s" % opt(op[1])
+    if k == "handleunreg":
+        return "handleunreg\t%d" % op[1]
+    if k == "regcheck":
+        return "regcheck\t%s\t%s\t%s" % ("~" if op[1] is None else "%d" % op[1], opt(op[2]), enc(op[3]))
     return k
 
 
 def run_history(pt, scratch, n, case):
     """execute on the implementation; returns (impl answer lines, oracle)"""
-    root = os.path.join(scratch, "h%s" % n)
-    os.mkdir(root)
+    root = pt.fresh_root(scratch, n)
     sb = Sandbox(root, case["init"])
     pt.point(sb)
     orc = Oracle(case["init"])
@@ -424,7 +681,7 @@ def gen_op(rng):
         kind = "read" if k < 34 else "new"
         j = rng.randrange(100)
         rhsm = None if j < 78 else gen_id_content(rng)[1] if j < 97 else ""
-        return [kind, rhsm, fresh_id(rng)]
+        return [kind, "explicit", rhsm, fresh_id(rng)]
     if k < 61:
         return ["reg"]
     if k < 76:
@@ -432,6 +689,36 @@ def gen_op(rng):
     if k < 88:
         return ["delreg"]
     return ["delunreg"]
+
+
+def gen_ep_case(rng, n_main):
+    """interleave every write path with reads through every read path: after each main operation all readers are asked"""
+    init, cls = gen_init(rng)
+    if rng.random() < 0.7:
+        init["has"][0] = True            # the interesting part needs a place to persist the identifier
+    ops = []
+    for _ in range(n_main):
+        k = rng.randrange(100)
+        rhsm = None if rng.random() < 0.85 else gen_id_content(rng)[1]
+        if k < 18:
+            ops.append(["new", rng.choice(EP_REGENS + ["explicit"]), rhsm, fresh_id(rng)])
+        elif k < 32:
+            ops.append(["connunreg"])
+        elif k < 44:
+            ops.append(["handleunreg", rng.randrange(2)])
+        elif k < 64:
+            ops.append(["regcheck", rng.choice([True, False, False, None]), rhsm, fresh_id(rng)])
+        elif k < 72:
+            ops.append(["fetch", rhsm, fresh_id(rng)])
+        elif k < 80:
+            ops.append(["read", "explicit", rhsm, fresh_id(rng)])
+        else:
+            ops.append(rng.choice([["reg"], ["unreg", None], ["delreg"], ["delunreg"]]))
+        readers = EP_READERS[:]
+        rng.shuffle(readers)
+        for rd in readers[:rng.choice([5, 5, 5, 3, 2])]:
+            ops.append(["read", rd, None if rng.random() < 0.9 else gen_id_content(rng)[1], fresh_id(rng)])
+    return "ep:" + cls, {"init": init, "ops": ops}
 
 
 def fixed_inits():
@@ -454,11 +741,12 @@ def fixed_inits():
 
 
 def fixed_histories(rng):
-    f = lambda: fresh_id(rng)
+    rd = lambda r=None: ["read", "explicit", r, fresh_id(rng)]
+    nw = lambda: ["new", "explicit", None, fresh_id(rng)]
     return [
-        [["read", None, f()], ["read", None, f()], ["new", None, f()], ["read", None, f()], ["read", None, f()]],
-        [["unreg", None], ["reg"], ["read", None, f()], ["new", None, f()], ["read", None, f()], ["unreg", "d1"], ["delunreg"], ["reg"], ["delreg"]],
-        [["reg"], ["unreg", None], ["reg"], ["read", "0b5a7c1e-2d3f-1a4b-5c6d-7e8f9a0b1c2d", f()], ["read", None, f()]],
+        [rd(), rd(), nw(), rd(), rd()],
+        [["unreg", None], ["reg"], rd(), nw(), rd(), ["unreg", "d1"], ["delunreg"], ["reg"], ["delreg"]],
+        [["reg"], ["unreg", None], ["reg"], rd("0b5a7c1e-2d3f-1a4b-5c6d-7e8f9a0b1c2d"), rd()],
     ]
 
 
@@ -504,72 +792,91 @@ def run(chk):
     for _ in range(n_canon):
         j = rng.randrange(10)
         s = gen_odd(rng) if j < 4 else gen_unicode_odd(rng) if j < 5 else gen_id_content(rng)[1]
-        cases.append(("canon", {"init": absent, "ops": [["new", s, fresh_id(rng)]]}, None))
+        cases.append(("canon", {"init": absent, "ops": [["new", "explicit", s, fresh_id(rng)]]}, None))
 
-    scratch = tempfile.mkdtemp(prefix="c17-")
+    n_ep = 450 if quick else 3000
+    ep_cases = []
+    for _ in range(n_ep):
+        cls, case = gen_ep_case(rng, rng.choice([1, 2, 3, 4, 6, 8]) if quick else rng.randint(1, 20))
+        ep_cases.append((cls, case, None))
+
     lines, spans, impl = [], [], []
     seen = set()
+
+    def record(n, cls, case, finding, out, fails, small):
+        """bookkeeping + oracle verdicts of one executed history (fails: [clause, text, op index])"""
+        ls = lines_of(case)
+        spans.append((len(lines), len(ls)))
+        lines.extend(ls)
+        impl.extend(out)
+        key = key_of(case)
+        changed = any(a.split("\t")[-1] != b.split("\t")[-1] or b.startswith("id:") for a, b in zip(out, out[1:]))
+        chk.case(key, changed and key not in seen)
+        seen.add(key)
+        chk.count("init:" + cls.split(":")[0] if cls.startswith("corpus") else "init:" + cls)
+        chk.count("dirs:%d%d" % tuple(case["init"]["has"]))
+        chk.count("len:%d" % len(case["ops"]) if len(case["ops"]) <= 12 else "len:>12")
+        for op, o in zip(case["ops"], out[1:]):
+            tag = "%s(%s)" % (op[0], op[1]) if op[0] in ("read", "new") else op[0]
+            chk.count("op:" + tag)
+            chk.count("result:%s:%s" % (op[0], o.split("\t")[0].split(":")[0]))
+        known_o2 = not case["init"]["has"][0]
+        reported = set()
+        for clause, text, i in fails:
+            if clause in reported:
+                continue
+            reported.add(clause)
+            known = clause == "O2" and known_o2
+            chk.failure("%s: %s (operation %d of the history)" % (clause, text, i),
+                        dict(small.get(clause) or case, clause=clause), finding=FINDING if known else None)
+        if finding and known_o2 and any(c == "O2" for c, _, _ in fails):
+            chk.finding_reproduced(finding)
+            chk.witnesses.append({"finding": finding, "reproduced": True, "ids": [o.split("\t")[0] for o in out[1:]]})
+        elif finding:
+            chk.witnesses.append({"finding": finding, "reproduced": False})
+        if n % 1500 == 7:
+            chk.sample({"init": case["init"], "ops": case["ops"], "impl": out})
+
+    scratch = tempfile.mkdtemp(prefix="c17-")
     try:
         with Patched() as pt:
             for n, (cls, case, finding) in enumerate(cases):
                 out, orc = run_history(pt, scratch, n, case)
-                ls = lines_of(case)
-                spans.append((len(lines), len(ls)))
-                lines.extend(ls)
-                impl.extend(out)
-                key = key_of(case)
-                changed = any(a.split("\t")[-1] != b.split("\t")[-1] or b.startswith("id:") for a, b in zip(out, out[1:]))
-                chk.case(key, changed and key not in seen)
-                seen.add(key)
-                chk.count("init:" + cls.split(":")[0] if cls.startswith("corpus") else "init:" + cls)
-                chk.count("dirs:%d%d" % tuple(case["init"]["has"]))
-                chk.count("len:%d" % len(case["ops"]))
-                for op, o in zip(case["ops"], out[1:]):
-                    chk.count("op:" + op[0])
-                    chk.count("result:%s:%s" % (op[0], o.split("\t")[0].split(":")[0]))
-                reported = set()
-                for clause, text, i in orc.fails:
-                    if clause in reported:
-                        continue
-                    reported.add(clause)
-                    known = orc.is_known(clause)
-                    small = shrink(pt, scratch, case, clause, i) if not known else case
-                    chk.failure("%s: %s (operation %d of the history)" % (clause, text, i),
-                                dict(small, clause=clause), finding=FINDING if known else None)
-                if finding and any(c == "O2" for c, _, _ in orc.fails) and orc.is_known("O2"):
-                    chk.finding_reproduced(finding)
-                    chk.witnesses.append({"finding": finding, "reproduced": True, "ids": [o.split("\t")[0] for o in out[1:]]})
-                elif finding:
-                    chk.witnesses.append({"finding": finding, "reproduced": False})
-                if n % 1500 == 7:
-                    chk.sample({"init": case["init"], "ops": case["ops"], "impl": out})
+                small = {}
+                for clause, _, i in orc.fails:
+                    if clause not in small and not orc.is_known(clause) and len(chk.failures) < 5:
+                        small[clause] = shrink(pt, scratch, case, clause, i)
+                record(n, cls, case, finding, out, orc.fails, small)
         if (constants.machine_id_file, constants.registered_files[0]) != ("/etc/insights-client/machine-id", "/etc/insights-client/.registered") \
                 and "INSIGHTS_CONF_DIR" not in os.environ:
             chk.tie_broken("harness", "constants were not restored", None)
     finally:
         shutil.rmtree(scratch, ignore_errors=True)
 
+    # entry-point stream: one child interpreter (clean module state, INSIGHTS_CONF_DIR in effect at import time)
+    res = run_child([c for _, c, _ in ep_cases], do_shrink=True)
+    for n, ((cls, case, finding), r) in enumerate(zip(ep_cases, res)):
+        record(len(cases) + n, cls, case, finding, r["out"], [tuple(f) for f in r["fails"]], r["small"])
+        if n % 150 == 3:
+            chk.sample({"init": case["init"], "ops": case["ops"], "impl": r["out"]})
+    cases = cases + ep_cases
+
     model = run_driver("C17", lines)
     # compare per history (a history = its init line + one line per operation)
-    h_cases, h_impl, h_model = [], [], []
-    o_cases, o_impl, o_model = [], [], []
+    streams = {"canon": ([], [], []), "ep": ([], [], []), "h": ([], [], [])}
     for (cls, case, _), (start, n) in zip(cases, spans):
-        tgt = (o_cases, o_impl, o_model) if cls == "canon" else (h_cases, h_impl, h_model)
+        tgt = streams["canon" if cls == "canon" else "ep" if cls.startswith("ep:") else "h"]
         tgt[0].append(case)
         tgt[1].append("\n".join(impl[start:start + n]))
         tgt[2].append("\n".join(model[start:start + n]))
-    chk.compare("histories(state+result after every operation)", h_cases, h_impl, h_model, show=show_case)
-    chk.compare("canonicalisation(uuid.UUID version=4)", o_cases, o_impl, o_model, show=show_case)
+    chk.compare("histories(state+result after every operation)", *streams["h"], show=show_case)
+    chk.compare("entry-points(every read path x every write path, state+result after every operation)", *streams["ep"], show=show_case)
+    chk.compare("canonicalisation(uuid.UUID version=4)", *streams["canon"], show=show_case)
     chk.extra["operations_compared"] = len(lines) - len(cases)
 
 
 def show_case(case):
     return {"init": case["init"], "ops": case["ops"], "lines": lines_of(case)}
-
-
-def oracle_fails(pt, scratch, case, tag):
-    _, orc = run_history(pt, scratch, tag, case)
-    return orc.fails
 
 
 _shrink_n = [0]
@@ -579,12 +886,18 @@ def shrink(pt, scratch, case, clause, at):
     """greedy delta over the operations: keep the history failing the same clause"""
     def fails(c):
         _shrink_n[0] += 1
-        return any(cl == clause for cl, _, _ in oracle_fails(pt, scratch, c, "s%d" % _shrink_n[0]))
+        _, orc = run_history(pt, scratch, "s%d" % _shrink_n[0], c)
+        return any(cl == clause for cl, _, _ in orc.fails)
+    return shrink_with(fails, case, at)
+
+
+def shrink_with(fails, case, at, budget=150):
     cur = {"init": case["init"], "ops": case["ops"][:at + 1]}
     if not fails(cur):
         return case
     i = 0
-    while i < len(cur["ops"]) and _shrink_n[0] < 400:
+    while i < len(cur["ops"]) and budget > 0:
+        budget -= 1
         cand = {"init": cur["init"], "ops": cur["ops"][:i] + cur["ops"][i + 1:]}
         if cand["ops"] and fails(cand):
             cur = cand
@@ -600,12 +913,17 @@ def replay(data):
     for l in lines_of(case):
         print("   ", l)
     print("   ", json.dumps(case))
-    scratch = tempfile.mkdtemp(prefix="c17-")
-    try:
-        with Patched() as pt:
-            out, orc = run_history(pt, scratch, 0, case)
-    finally:
-        shutil.rmtree(scratch, ignore_errors=True)
+    if needs_child(case):
+        r = run_child([case])[0]
+        out, fails, init = r["out"], [tuple(f) for f in r["fails"]], case["init"]
+    else:
+        scratch = tempfile.mkdtemp(prefix="c17-")
+        try:
+            with Patched() as pt:
+                out, orc = run_history(pt, scratch, 0, case)
+        finally:
+            shutil.rmtree(scratch, ignore_errors=True)
+        fails, init = orc.fails, case["init"]
     try:
         model = run_driver("C17", lines_of(case))
     except Exception as e:
@@ -614,8 +932,13 @@ def replay(data):
         print("%-5s impl : %s" % ("init" if i == 0 else case["ops"][i - 1][0], a))
         if a != b:
             print("      model: %s   <-- differs" % b)
-    for clause, text, i in orc.fails:
-        print("ORACLE %s at operation %d: %s%s" % (clause, i, text, "  [known finding %s]" % FINDING if orc.is_known(clause) else ""))
-    bad = bool(orc.fails)
+    for clause, text, i in fails:
+        print("ORACLE %s at operation %d: %s%s" % (clause, i, text,
+              "  [known finding %s]" % FINDING if (clause == "O2" and not init["has"][0]) else ""))
+    bad = bool(fails)
     print("property violated on this input" if bad else "property holds on this input")
     return 1 if bad else 0
+
+
+if __name__ == "__main__":
+    child_main()
